@@ -39,14 +39,21 @@ class PcpReal:
     def path(self, prog):
         return os.path.join(self.dir, "bin", prog)
 
-    def run(self, args, prog="pdcp", stdin=b"", timeout=20, cwd=None, umask=0o022, env=None):
+    def run(self, args, prog="pdcp", stdin=b"", timeout=20, cwd=None, umask=0o022, env=None, fsize=None):
         e = {"PATH": os.path.join(self.dir, "bin") + ":/usr/bin:/bin", "HOME": "/root", "LANG": "C",
              "ASAN_OPTIONS": "detect_leaks=0:abort_on_error=0:allocator_may_return_null=1", "UBSAN_OPTIONS": "print_stacktrace=0"}
         if env:
             e.update(env)
+        def pre():
+            os.umask(umask)
+            if fsize is not None:
+                # a file-size limit for the whole run: writes beyond it fail with EFBIG (SIGXFSZ ignored, inherited across exec)
+                import resource, signal
+                signal.signal(signal.SIGXFSZ, signal.SIG_IGN)
+                resource.setrlimit(resource.RLIMIT_FSIZE, (fsize, fsize))
         try:
             p = subprocess.run([self.path(prog)] + list(args), env=e, input=stdin, stdout=subprocess.PIPE, stderr=subprocess.PIPE,
-                               timeout=timeout, cwd=cwd, preexec_fn=lambda: os.umask(umask))
+                               timeout=timeout, cwd=cwd, preexec_fn=pre)
             return p.returncode, p.stdout, p.stderr
         except subprocess.TimeoutExpired as ex:
             return -999, ex.stdout or b"", ex.stderr or b""
